@@ -431,7 +431,24 @@ func ruleSibEquality(c *Ctx, r *R) {
 			r.check(uses["Signbit"] == sb.signbit, sb.name+":zero-sign", c.Pos(cc.Pos()),
 				fmt.Sprintf("distinguishes +0 from -0: %v", sb.signbit),
 				fmt.Sprintf("the number arm of %s %s math.Signbit: only SameValue (§9.12) tells +0 from -0; === and == do not (§11.9.6)", sb.name, map[bool]string{true: "uses", false: "does not use"}[uses["Signbit"]]))
-			r.check(uses["IsNaN"], sb.name+":nan", c.Pos(cc.Pos()), "number arm handles NaN explicitly", "the number arm of "+sb.name+" has no NaN test")
+			// NaN: SameValue must equate NaN with itself, which needs a test; == and === must not, which Go's == on
+			// float64 operands gives without one
+			floatEq := false
+			for _, st := range cc.Body {
+				ast.Inspect(st, func(n ast.Node) bool {
+					if be, ok := n.(*ast.BinaryExpr); ok && (be.Op == token.EQL || be.Op == token.NEQ) {
+						if bt, ok := info.TypeOf(be.X).Underlying().(*types.Basic); ok && bt.Kind() == types.Float64 {
+							floatEq = true
+						}
+					}
+					return true
+				})
+			}
+			if sb.signbit {
+				r.check(uses["IsNaN"], sb.name+":nan", c.Pos(cc.Pos()), "number arm handles NaN explicitly", "the number arm of "+sb.name+" has no NaN test: SameValue(NaN, NaN) is true (§9.12), which == on floats never gives")
+			} else {
+				r.check(uses["IsNaN"] || floatEq, sb.name+":nan", c.Pos(cc.Pos()), "NaN is unequal to everything (an explicit test, or == on the float64 values)", "the number arm of "+sb.name+" neither tests for NaN nor compares the float64 values with ==")
+			}
 		}
 	}
 	// call sites
@@ -1583,7 +1600,7 @@ func ruleConvLossy(c *Ctx, r *R) {
 					r.ok(key, site, "operand is bounded by a dominating comparison or is a length/count")
 					continue
 				}
-				if why, ok := convLossyReviewed[base]; ok {
+				if why, ok := reviewedLookup(convLossyReviewed, base); ok {
 					r.ok("reviewed:"+key, site, why)
 					continue
 				}
